@@ -7,6 +7,7 @@ import D2P.Model.Lifecycle
 import D2P.Check.C01
 import D2P.Check.C13
 import D2P.Check.Merge
+import D2P.Check.C16
 import D2P.Model.Replace
 import D2P.Model.Save
 /-!
@@ -316,6 +317,17 @@ def handleSave (j : Json) : Except String Json := do
   let o : Opts := { html := (j.getObjValAs? Bool "html").toOption.getD false, dup := true }
   pure (jM (fun (out : Archive) => .arr (out.members.map fun m => jStr m.1).toArray) (save o a))
 
+/-- `{"op":"savehyp", …package…}`: the hypotheses of `C16_reextract`, evaluated on the package -/
+def handleSaveHyp (j : Json) : Except String Json := do
+  let a ← archiveOfJson j
+  let o : Opts := { html := (j.getObjValAs? Bool "html").toOption.getD false, dup := true }
+  match a.files, save o a with
+  | .ok files, .ok out =>
+    let same := match out.files with | .ok f2 => decide (f2 = files) | .error _ => false
+    let good := files.all fun r => !contentTypes.contains r.type || (match a.readXml r.path with | .ok root => goodTree root | .error _ => true)
+    pure (Json.mkObj [("files_same", toJson same), ("saveSane", toJson (saveSane files)), ("goodTree", toJson good)])
+  | _, _ => pure (Json.mkObj [("err", .str "save or files raise")])
+
 /-- `{"op":"valid", …package…}`: `validT` (hypothesis of `C13_part_total`) of every content part as it is walked
 (after `merge_elems`) -/
 def handleValid (j : Json) : Except String Json := do
@@ -342,6 +354,7 @@ def handle (line : String) : Json :=
     | .ok "replace" => (match handleReplace j with | .ok r => r | .error e => Json.mkObj [("bad", .str e)])
     | .ok "lifecycle" => (match handleLifecycle j with | .ok r => r | .error e => Json.mkObj [("bad", .str e)])
     | .ok "save" => (match handleSave j with | .ok r => r | .error e => Json.mkObj [("bad", .str e)])
+    | .ok "savehyp" => (match handleSaveHyp j with | .ok r => r | .error e => Json.mkObj [("bad", .str e)])
     | .ok "runs" => (match handleRuns j with | .ok r => r | .error e => Json.mkObj [("bad", .str e)])
     | .ok "valid" => (match handleValid j with | .ok r => r | .error e => Json.mkObj [("bad", .str e)])
     | .ok "render" => (match handleRender j with | .ok r => r | .error e => Json.mkObj [("bad", .str e)])
